@@ -61,3 +61,14 @@ func DebugProg(seed int64, i int) {
 		fmt.Printf("-- module %s\n%s\n", m.Name, m.Src)
 	}
 }
+
+// DebugC04Prog prints the script C04 generates for a run index (without running it).
+func DebugC04Prog(seed int64, index int) {
+	t := sim.NewTape(seed, "C04", index)
+	g := newGen(t, genConfig{Modules: true, Hosts: true, Consts: true, HostState: true, Params: true, MaxStmts: 12})
+	src, mods := g.program()
+	fmt.Println(src)
+	for _, m := range mods {
+		fmt.Printf("-- module %s\n%s\n", m.Name, m.Src)
+	}
+}
